@@ -12,6 +12,8 @@ import (
 	"net/http"
 	"net/http/httptest"
 	"os"
+	"reflect"
+	"regexp"
 	"strings"
 	"sync"
 	"time"
@@ -40,6 +42,8 @@ var glue struct {
 	sync.Mutex
 	once     sync.Once
 	compared int
+	encoded  int
+	respelt  int
 	history  []string
 	first    *glueMismatch
 	off      bool
@@ -78,7 +82,7 @@ func glueSame(hst int, hout []byte, lst int, lout []byte) bool {
 	return false
 }
 
-func glueCheck(body []byte, lst int, lout []byte) {
+func glueCheck(body []byte, lst int, lout []byte, choice *model.DecisionMakerChoice) {
 	glue.Lock()
 	defer glue.Unlock()
 	if glue.off || glue.first != nil {
@@ -89,6 +93,39 @@ func glueCheck(body []byte, lst int, lout []byte) {
 	if !glueSame(hst, hout, lst, lout) {
 		glue.first = &glueMismatch{Body: string(body), Preceding: append([]string{}, glue.history...),
 			Handler: fmt.Sprintf("%d %s", hst, truncate(string(hout), 1500)), Library: fmt.Sprintf("%d %s", lst, truncate(string(lout), 1500))}
+	} else if hst == 200 && choice != nil {
+		// what the client sees: the raw JSON against the pinned encoding of the decision
+		var got interface{}
+		if err := json.Unmarshal(hout, &got); err != nil {
+			glue.first = &glueMismatch{Body: string(body), Handler: "200 (not JSON: " + err.Error() + ")", Library: truncate(string(lout), 500)}
+		} else if d := pinDiff(pinEncode(reflect.ValueOf(choice), nil), got, "response"); d != "" {
+			glue.first = &glueMismatch{Body: string(body), Preceding: append([]string{}, glue.history...),
+				Handler: "200 " + truncate(string(hout), 1500), Library: "client-visible JSON differs from the decision: " + d}
+		}
+		glue.encoded++
+	}
+	// the same number spelt differently (3 / 3.0 / 3e0) is the same request
+	if glue.first == nil && glue.compared%7 == 0 {
+		if alt := respellNumbers(body); alt != nil {
+			ast, aout := handlerJSON(alt)
+			if !glueSame(ast, aout, lst, lout) {
+				glue.first = &glueMismatch{Body: string(alt), Preceding: []string{"(the same request with integers written as 3 instead of 3.0 is answered: " + fmt.Sprintf("%d %s", lst, truncate(string(lout), 300)) + ")"},
+					Handler: fmt.Sprintf("%d %s", ast, truncate(string(aout), 1500)), Library: fmt.Sprintf("%d %s", lst, truncate(string(lout), 1500))}
+			}
+			glue.respelt++
+		}
+	}
+	// a neighbour of the request: one alternative less to choose from (a handler that remembers answers must
+	// not confuse the two)
+	if glue.first == nil && glue.compared%9 == 0 {
+		if nb := fewerChosen(body); nb != nil {
+			nst, nout, _ := libraryDecide(nb)
+			hst2, hout2 := handlerJSON(nb)
+			if !glueSame(hst2, hout2, nst, nout) {
+				glue.first = &glueMismatch{Body: string(nb), Preceding: []string{string(body)},
+					Handler: fmt.Sprintf("%d %s", hst2, truncate(string(hout2), 1500)), Library: fmt.Sprintf("%d %s", nst, truncate(string(nout), 1500))}
+			}
+		}
 	}
 	glue.history = append(glue.history, string(body))
 	if len(glue.history) > 3 {
@@ -129,6 +166,8 @@ func glueReport(o *Out) {
 		return
 	}
 	o.count("handler-glue:compared=" + itoa(glue.compared))
+	o.count("handler-glue:encoding-compared=" + itoa(glue.encoded))
+	o.count("handler-glue:respelt=" + itoa(glue.respelt))
 	m := Meta{Stage: "handler-glue", Key: "handler-glue", Input: J{"compared": glue.compared}}
 	if glue.first != nil {
 		m.Input = glue.first
@@ -138,16 +177,56 @@ func glueReport(o *Out) {
 
 // decideJSON does exactly what decideHandler does after binding, in-process (and compares with the real handler).
 func decideJSON(body []byte) (status int, out []byte) {
-	status, out = libraryJSON(body)
-	glueCheck(body, status, out)
+	var choice *model.DecisionMakerChoice
+	status, out, choice = libraryDecide(body)
+	glueCheck(body, status, out, choice)
 	return
 }
 
+var respellRe = regexp.MustCompile(`"(randomSeed|newCriterionRandomSeed|queryNumber|min|max)":(-?[0-9]+)([,}])`)
+
+// respellNumbers writes the integer-valued members 7 as 7.0 / 7e0 (nil when the body has none)
+func respellNumbers(body []byte) []byte {
+	if !respellRe.Match(body) {
+		return nil
+	}
+	i := 0
+	return respellRe.ReplaceAllFunc(body, func(m []byte) []byte {
+		sub := respellRe.FindSubmatch(m)
+		i++
+		suffix := ".0"
+		if i%2 == 0 {
+			suffix = "e0"
+		}
+		return []byte(`"` + string(sub[1]) + `":` + string(sub[2]) + suffix + string(sub[3]))
+	})
+}
+
+// fewerChosen drops the last entry of choseToMake (nil when fewer than two)
+func fewerChosen(body []byte) []byte {
+	var b map[string]interface{}
+	if json.Unmarshal(body, &b) != nil {
+		return nil
+	}
+	ch, ok := b["choseToMake"].([]interface{})
+	if !ok || len(ch) < 2 {
+		return nil
+	}
+	b["choseToMake"] = ch[:len(ch)-1]
+	out, _ := json.Marshal(b)
+	return out
+}
+
 func libraryJSON(body []byte) (status int, out []byte) {
+	status, out, _ = libraryDecide(body)
+	return
+}
+
+func libraryDecide(body []byte) (status int, out []byte, choice *model.DecisionMakerChoice) {
 	var dm model.DecisionMaker
 	if err := json.Unmarshal(body, &dm); err != nil {
 		b, _ := json.Marshal(map[string]interface{}{"error": err.Error()})
-		return 400, b
+		return 400, b, nil
 	}
 	var decision *model.DecisionMakerChoice
 	msg := recoverErr(func() {
@@ -155,14 +234,14 @@ func libraryJSON(body []byte) (status int, out []byte) {
 	})
 	if msg != "" {
 		b, _ := json.Marshal(map[string]interface{}{"error": msg})
-		return 400, b
+		return 400, b, nil
 	}
 	b, err := json.Marshal(decision)
 	if err != nil {
 		b, _ = json.Marshal(map[string]interface{}{"error": "marshal: " + err.Error()})
-		return 500, b
+		return 500, b, nil
 	}
-	return 200, b
+	return 200, b, decision
 }
 
 // decideJSONTimeout: decideJSON with a watchdog (a handler that never returns keeps spinning in a leaked
